@@ -41,13 +41,13 @@ def distances(ctx, pts, a, b, family):
         q = F(d.call('geom', ['shortestSq', P(p), P(a), P(b)])[0])
         ctx.corr_checked += 1
         if not close(float(sd[i]) ** 2, q, scale * 1e-3):
-            ctx.fail('correspondence', 'shortest distance^2 vs distance to the closed segment', 'linear_fit.shortest_distance_points', case, dict(i=i, impl_sq=float(sd[i]) ** 2, model=float(q)))
+            ctx.fail('predicate', 'shortest-distance-is-the-distance-to-the-closed-segment', 'linear_fit.shortest_distance_points', case, dict(i=i, impl_sq=float(sd[i]) ** 2, model=float(q)))
     if pdist is not None:
         for i, p in enumerate(pts):
             q = F(d.call('geom', ['perpSq', P(p), P(a), P(b)])[0])
             ctx.corr_checked += 1
             if not close(float(pdist[i]) ** 2, q, scale * 1e-3):
-                ctx.fail('correspondence', 'perpendicular distance^2 vs distance to the line', 'linear_fit.perpendicular_distance_points', case, dict(i=i, impl_sq=float(pdist[i]) ** 2, model=float(q)))
+                ctx.fail('predicate', 'perpendicular-distance-is-the-distance-to-the-line', 'linear_fit.perpendicular_distance_points', case, dict(i=i, impl_sq=float(pdist[i]) ** 2, model=float(q)))
     ctx.count(family, n=len(pts), nontrivial_key=(pts.tobytes(), a.tobytes(), b.tobytes()) if not np.all(a == b) else None,
               sample=dict(a=a.tolist(), b=b.tolist(), points=pts.tolist()[:4], shortest=[float(v) for v in sd[:4]]))
 
@@ -85,7 +85,7 @@ def rects(ctx, r1, r2, family):
     q = F(d.call('iou', [P(amin), P(amax), P(bmin), P(bmax)])[0])
     ctx.corr_checked += 1
     if not close(v, q, 1):
-        ctx.fail('correspondence', 'IoU value', 'knee_ranking.rect_overlap', case, dict(impl=v, model=float(q)))
+        ctx.fail('predicate', 'rect_overlap-is-intersection-over-union', 'knee_ranking.rect_overlap', case, dict(impl=v, model=float(q)))
     if v != w:
         ctx.fail('predicate', 'iou-symmetric', 'knee_ranking.rect_overlap', case, dict(ab=v, ba=w))
     if not (0.0 <= v <= 1.0):
@@ -119,7 +119,7 @@ def triple(ctx, f, g, h, family):
     q = F(d.call('geom', ['mengerSq', P(f), P(g), P(h)])[0])
     ctx.corr_checked += 1
     if not close(base ** 2, q, 1e-6):
-        ctx.fail('correspondence', 'Menger curvature^2 vs reciprocal circumradius^2', 'menger.menger_curvature', case, dict(impl_sq=base ** 2, model=float(q)))
+        ctx.fail('predicate', 'menger-curvature-is-the-reciprocal-circumradius', 'menger.menger_curvature', case, dict(impl_sq=base ** 2, model=float(q)))
     for perm, v in vals.items():
         if abs(v - base) > 1e-12 * (abs(v) + abs(base)) + 1e-300:
             ctx.fail('predicate', 'menger-symmetric-in-its-arguments', 'menger.menger_curvature', case, dict(perm=list(perm), value=v, base=base))
@@ -132,7 +132,7 @@ def triple(ctx, f, g, h, family):
     qa = F(d.call('geom', ['triArea', P(f), P(g), P(h)])[0])
     va = float(pp.triangle_area(np.array([f, g, h], float)))
     if not close(va, qa, 1):
-        ctx.fail('correspondence', 'signed triangle area', 'postprocessing.triangle_area', case, dict(impl=va, model=float(qa)))
+        ctx.fail('predicate', 'triangle_area-is-the-signed-area', 'postprocessing.triangle_area', case, dict(impl=va, model=float(qa)))
     ctx.count(family, nontrivial_key=(tuple(f), tuple(g), tuple(h)) if cr != 0 else None, sample=dict(case, menger=base))
 
 
